@@ -529,3 +529,179 @@ def rule_T14(ctx):
         elif f["name"].startswith("ok_"):
             r.neg_control(f["name"], not fnd)
     return r
+
+
+# ---------------------------------------------------------------------------------------------------------------------
+# W2  intern-key fidelity: SimpleGarnishData keys its constant table on a hash of the value alone (cache_add never compares
+#     the stored value on a hit), so "a different constant gets a different address" needs every hand-written Hash impl the
+#     key passes through to feed the hasher a loss-free encoding of the whole payload.
+_INT_BITS = {"i8": 8, "u8": 8, "i16": 16, "u16": 16, "i32": 32, "u32": 32, "i64": 64, "u64": 64, "i128": 128, "u128": 128, "isize": 64, "usize": 64}
+_LOSSY_METHODS = {"fract", "trunc", "round", "floor", "ceil", "abs", "signum", "len", "is_nan", "is_finite", "is_sign_negative", "is_sign_positive", "count",
+                  "to_ascii_lowercase", "to_ascii_uppercase", "to_lowercase", "to_uppercase", "trim", "wrapping_abs", "rem_euclid", "min", "max", "clamp",
+                  "first", "last", "is_empty", "is_some", "is_none", "unsigned_abs", "leading_zeros", "trailing_zeros", "count_ones"}
+_LOSSY_BINOPS = {"%", "/", "&", "|", ">>", "<<", "^", "*", "==", "!=", "<", "<=", ">", ">=", "&&", "||"}
+
+
+def _lossy_cast(n):
+    a, b = (n.get("from_ty") or "").lstrip("&"), (n.get("ty") or "")
+    if a in ("f64", "f32") and b in _INT_BITS:
+        return "%s as %s drops the fraction and saturates" % (a, b)
+    if a == "f64" and b == "f32":
+        return "f64 as f32 rounds"
+    if a in _INT_BITS and b in _INT_BITS and _INT_BITS[b] < _INT_BITS[a]:
+        return "%s as %s truncates" % (a, b)
+    if a in _INT_BITS and b in ("f32", "f64") and _INT_BITS[a] > (24 if b == "f32" else 53):
+        return "%s as %s rounds" % (a, b)
+    if a == "char" and b in _INT_BITS and _INT_BITS[b] < 32:
+        return "char as %s truncates" % b
+    return None
+
+
+def _hash_feeds(hir):
+    """(receiver expression, node) for each value fed to a hasher: `x.hash(state)` / `Hash::hash(&x, state)` / `state.write_*(x)`."""
+    out = []
+    for n in walk(hir):
+        if n.get("k") == "MethodCall" and n.get("def") == "core::hash::Hash::hash":
+            out.append((n["recv"], n))
+        elif n.get("k") == "Call" and callee(n) == "core::hash::Hash::hash" and n.get("args"):
+            out.append((n["args"][0], n))
+        elif n.get("k") == "MethodCall" and (n.get("def") or "").startswith("core::hash::Hasher::write") and n.get("args"):
+            out.append((n["args"][0], n))
+    return out
+
+
+def hash_impl_findings(F, f):
+    """Lossy encodings in a hand-written Hash::hash body.  Returns (findings, arms examined, feeds examined)."""
+    fnd = []
+    body = Body(f)
+    feeds = _hash_feeds(f["hir"])
+    def lossy_in(e, seen):
+        for m in walk(e):
+            k = m.get("k")
+            if k == "Cast":
+                why = _lossy_cast(m)
+                if why:
+                    return why, m
+            if k == "MethodCall" and m.get("m") in _LOSSY_METHODS and "exp" not in m:
+                return "`.%s()` is not one-to-one" % m["m"], m
+            if k == "Binary" and m.get("op") in _LOSSY_BINOPS and "exp" not in m:
+                return "`%s` is not one-to-one" % m["op"], m
+            if k == "Path" and m.get("res") == "local" and m.get("lid") not in seen:
+                seen.add(m["lid"])
+                for d in body.defs.get(m["lid"], []):
+                    if isinstance(d, dict) and d.get("k") not in ("Binding", "Param"):
+                        got = lossy_in(d, seen)
+                        if got:
+                            return got
+        return None
+    for recv, node in feeds:
+        got = lossy_in(recv, set())
+        if got:
+            why, m = got
+            fnd.append(("lossy-feed:%s" % why.split(" ")[0 if why[0] != "`" else 0].strip("`"), loc(node),
+                        "the value fed to the hasher at %s goes through a lossy step (%s at %s): distinct constants then share one hash, and the hash-keyed intern table "
+                        "hands the second one the first one's address" % (loc(node), why, loc(m))))
+    arms = 0
+    for n in walk(f["hir"]):
+        if n.get("k") != "Match" or n.get("src") != "Normal":
+            continue
+        sc = peel(n["scrut"])
+        if not (sc.get("k") == "Path" and sc.get("name") == "self"):
+            continue
+        for arm in n["arms"]:
+            arms += 1
+            binds = [b for b in walk(arm["pat"]) if b.get("k") == "Binding"]
+            used = set(m.get("lid") for fr, _ in _hash_feeds(arm["body"]) for m in walk(fr) if m.get("k") == "Path" and m.get("res") == "local")
+            # follow one level of let-bound intermediates
+            for fr, _ in _hash_feeds(arm["body"]):
+                for m in walk(fr):
+                    if m.get("k") == "Path" and m.get("res") == "local":
+                        for d in body.defs.get(m["lid"], []):
+                            if isinstance(d, dict):
+                                used |= set(x.get("lid") for x in walk(d) if x.get("k") == "Path" and x.get("res") == "local")
+            has_payload = any(p.get("k") in ("TupleStruct", "Struct") and (p.get("pats") or p.get("fields")) for p in [arm["pat"]]) and \
+                any(x.get("k") != "Wild" or True for x in (arm["pat"].get("pats") or []))
+            for b in binds:
+                if b["lid"] not in used:
+                    fnd.append(("payload-not-hashed:%s" % last(arm["pat"].get("def") or arm["pat"].get("txt") or "?"), loc(arm["pat"]),
+                                "arm %s binds `%s` but never feeds it to the hasher" % (arm["pat"].get("txt"), b.get("name"))))
+            wild = [x for x in (arm["pat"].get("pats") or []) if x.get("k") == "Wild"]
+            if wild and arm["pat"].get("k") == "TupleStruct":
+                fnd.append(("payload-not-hashed:%s" % last(arm["pat"].get("def") or "?"), loc(arm["pat"]),
+                            "arm %s ignores its payload (`_`), so all values of the variant share one hash" % arm["pat"].get("txt")))
+            if arm.get("guard") is not None and _hash_feeds(arm["body"]):
+                pass
+    return fnd, arms, len(feeds)
+
+
+def _is_derived(f):
+    """A #[derive(Hash)] body: every call in it carries the derive's expansion marker."""
+    calls = [n for n in walk(f["hir"]) if n.get("k") in ("Call", "MethodCall")]
+    return all("Hash" in (n.get("exp") or []) or "Hash" in ((n.get("f") or {}).get("exp") or []) for n in calls)
+
+
+def rule_W2(ctx):
+    F = ctx.F
+    r = RuleResult("W2", "intern-key fidelity: the hash that alone keys SimpleGarnishData's constant table is computed from a loss-free encoding of the whole value")
+    # 1. intern sites: functions that finish() a hasher and use the result as a map key
+    sites = []
+    for f in F.fns.values():
+        if f["crate"] != "garnish_lang_simple_data" or f["kind"] == "Closure":
+            continue
+        ms = [n for n in walk(f["hir"]) if n.get("k") == "MethodCall"]
+        if any(n["m"] == "finish" for n in ms) and any(n["m"] == "insert" for n in ms) and any(n["m"] == "get" for n in ms):
+            sites.append(f)
+    r.floor("hash-keyed intern sites in the data crate", len(sites), 1)
+    hashed_types = set()
+    for f in sites:
+        tys = []
+        for recv, node in _hash_feeds(f["hir"]):
+            t = (recv.get("ty") or "").lstrip("&")
+            tys.append(t)
+            hashed_types.add(t.split("<")[0])
+        # does the site compare the stored value on a hit?  if it does, a lossy hash costs speed, not correctness
+        compares = any(n.get("k") == "Binary" and n.get("op") == "==" and "SimpleData" in (peel(n["l"]).get("ty") or "") for n in walk(f["hir"]))
+        r.examine((f["path"],), True, {"fn": f["path"], "hashes": tys, "compares_stored_value_on_hit": compares})
+        if compares:
+            r.info.append("%s compares the stored value on a hit: hash fidelity is not needed for correctness there" % f["path"])
+    # 2. close over field types, analysing hand-written Hash impls
+    todo = list(hashed_types)
+    seen = set()
+    manual = 0
+    while todo:
+        t = todo.pop()
+        if t in seen:
+            continue
+        seen.add(t)
+        adt = F.adts.get(t)
+        if adt is None:
+            continue
+        for v in adt.get("variants", []) or [{"fields": adt.get("fields", [])}]:
+            for fld in v.get("fields", []):
+                todo.append(fld["ty"].lstrip("&").split("<")[0])
+        impl = [g for g in F.fns.values() if g.get("name") == "hash" and (g.get("impl_trait") or "").startswith("core::hash::Hash") and (g.get("impl_self") or "").split("<")[0] == t]
+        for g in impl:
+            if _is_derived(g):
+                r.examine((g["path"],), True, {"fn": g["path"], "derived": True})
+                continue
+            manual += 1
+            fnd, arms, feeds = hash_impl_findings(F, g)
+            r.examine((g["path"],), True, {"fn": g["path"], "derived": False, "arms": arms, "values_fed_to_hasher": feeds, "violations": len(fnd)})
+            done = set()
+            for inst, where, msg in fnd:
+                if inst in done:
+                    continue
+                done.add(inst)
+                r.finding(g["path"], inst, where, msg)
+    r.analysed["types_in_intern_key"] = sorted(seen & set(F.adts))
+    r.floor("hand-written Hash impls in the intern key", manual, 1)
+    for f in sorted(F.fns.values(), key=lambda f: f["path"]):
+        if "gfixture::w2::" not in f["path"] or f.get("name") != "hash":
+            continue
+        fnd, _a, _n = hash_impl_findings(F, f)
+        nm = last(f.get("impl_self") or "")
+        if nm.startswith("Ctl"):
+            r.control(nm, bool(fnd))
+        elif nm.startswith("Ok"):
+            r.neg_control(nm, not fnd)
+    return r
